@@ -7,6 +7,7 @@
 package roots
 
 import (
+	"math/big"
 	"crypto/ed25519"
 	"crypto/rand"
 	"crypto/x509"
@@ -90,12 +91,12 @@ type run struct {
 }
 
 func (r *run) virt(t time.Time) int {
-	d := t.Sub(r.t0) + r.adv
-	q := d / r.fine
-	if d < 0 && d%r.fine != 0 {
-		q--
-	}
-	return int(q)
+	// (arbitrary precision: an instant may lie more than the 292 years of a time.Duration away)
+	total := new(big.Int).Mul(big.NewInt(t.Unix()-r.t0.Unix()), big.NewInt(1e9))
+	total.Add(total, big.NewInt(int64(t.Nanosecond()-r.t0.Nanosecond())))
+	total.Add(total, big.NewInt(int64(r.adv)))
+	q := new(big.Int).Div(total, big.NewInt(int64(r.fine))) // Euclidean division: floor for a positive divisor
+	return int(q.Int64())
 }
 
 func (r *run) rootId(pub []byte) int {
